@@ -3,6 +3,7 @@ mod gen;
 mod ops;
 mod oracle;
 mod pgen;
+mod catalogue;
 mod pkt;
 mod fam;
 mod poracle;
@@ -65,6 +66,8 @@ fn main() {
                 "C19" => oracle::c19(tier, ops),
                 "C16" => oracle::c16(tier, seed, ops),
                 "C13" => oracle::c13(tier, seed, ops),
+                "C04" => oracle::c04(tier, seed, ops),
+                "C20" => oracle::c20(tier, seed, ops),
                 "C01" | "C02" | "C03" | "C05" | "C06" | "C07" | "C08" | "C09" | "C11" | "C12" | "C14" => oracle::packet_oracle(prop, tier, seed, ops),
                 "C17" => oracle::c17(tier, seed, ops),
                 "C18" => oracle::c18(tier, seed, ops),
